@@ -85,12 +85,23 @@ pub fn expectation(returned: Option<f64>, cur: f64, kt_zero: bool) -> Expect {
     }
 }
 
+/// Which accept/reject decisions the model allows when it narrows the set of candidate current states.
+#[derive(Clone, Copy, Debug, PartialEq)]
+pub enum Mode {
+    /// exactly the Metropolis rule: better/equal accepted, undefined rejected, worse rejected at kT=0 and either way at kT>0
+    Metropolis,
+    /// any scored proposal may have been accepted or rejected; an unscored one is rejected
+    Agnostic,
+    /// what C05 permits at kT=0: a proposal scoring >= the current state may be accepted or rejected, a worse or
+    /// unscored one must be rejected (at kT>0 a worse one may go either way)
+    Monotone,
+}
+
 /// Trace model: the set of parameter vectors the optimiser's current state can be, given everything seen.
 pub struct Model {
     /// temperature is zero for the whole run (then worse moves must be rejected)
     pub kt_zero: bool,
-    /// use the Metropolis expectations to narrow the candidate set (otherwise purely decision-agnostic)
-    pub use_expectations: bool,
+    pub mode: Mode,
     pub cands: Vec<Cand>,
     pub steps: Vec<StepRec>,
     pending: Option<(Vec<f64>, Option<f64>, Vec<(Cand, Expect)>)>,
@@ -115,7 +126,11 @@ pub struct CallInfo {
 
 impl Model {
     pub fn new(kt_zero: bool, use_expectations: bool) -> Model {
-        Model { kt_zero, use_expectations, cands: vec![], steps: vec![], pending: None, calls: 0, inconsistency: None, keep_steps: true, initial: None, finished: false }
+        Model::with_mode(kt_zero, if use_expectations { Mode::Metropolis } else { Mode::Agnostic })
+    }
+
+    pub fn with_mode(kt_zero: bool, mode: Mode) -> Model {
+        Model { kt_zero, mode, cands: vec![], steps: vec![], pending: None, calls: 0, inconsistency: None, keep_steps: true, initial: None, finished: false }
     }
 
     fn resolve_pending(&mut self) -> Vec<Cand> {
@@ -130,14 +145,20 @@ impl Model {
         };
         if let Some((proposal, returned, bases)) = self.pending.take() {
             for (b, e) in bases.into_iter() {
-                // decision-agnostic mode: any proposal with a score may have been accepted or rejected; a proposal
-                // without a score cannot be "the state with the best-known current score" under any rule
-                let e = if self.use_expectations {
-                    e
-                } else if returned.is_none() {
-                    Expect::Reject
-                } else {
-                    Expect::Unknown
+                let e = match self.mode {
+                    Mode::Metropolis => e,
+                    // a proposal without a score cannot be "the state with the best-known current score" under any rule
+                    Mode::Agnostic => {
+                        if returned.is_none() {
+                            Expect::Reject
+                        } else {
+                            Expect::Unknown
+                        }
+                    }
+                    Mode::Monotone => match e {
+                        Expect::Accept => Expect::Unknown,
+                        other => other,
+                    },
                 };
                 match e {
                     Expect::Accept => push(Cand { params: proposal.clone(), score: returned.unwrap() }, &mut out),
